@@ -229,6 +229,11 @@ func (e *Engine) initialGlobal(g *ssa.Global) Value {
 		return e.constBytesGlobal([]byte{0, 0, 0, 0, 0, 0, 0, 0, 0, 0, 0xff, 0xff, 0, 0, 0, 0})
 	case "net.v4InV6Prefix":
 		return e.constBytesGlobal([]byte{0, 0, 0, 0, 0, 0, 0, 0, 0, 0, 0xff, 0xff})
+	case "net.ErrClosed":
+		// the sentinel the socket model's "use of closed network connection" errors match (errors.Is)
+		return IfaceV{T: e.errType(), V: ErrV{ID: "net:use of closed network connection", Msg: StrV{Opaque: true, Note: "use of closed network connection", MinLen: 1}, Sentinel: true}}
+	case "os.ErrDeadlineExceeded":
+		return IfaceV{T: e.errType(), V: ErrV{ID: "net:i/o timeout", Msg: StrV{Opaque: true, Note: "i/o timeout", MinLen: 1}, Sentinel: true}}
 	case "net/netip.z0":
 		return e.zero(t)
 	case "net/netip.z4":
